@@ -1,4 +1,5 @@
 import gfapy
+import re
 
 class Alignment:
   """Factory for instances of classes which represent alignments in GFA fields.
@@ -101,6 +102,10 @@ class Alignment:
           continue
         elif char == ",":
           if version == "gfa2":
+            if not valid and not re.match(r"^[0-9]+(,[0-9]+)*$", string):
+              raise gfapy.FormatError(
+                  "Trace alignment contains invalid data {}"
+                  .format(repr(string)))
             t = gfapy.Trace._from_string(string)
             if not valid:
               t.validate()
@@ -114,7 +119,8 @@ class Alignment:
           return gfapy.CIGAR._from_string(string, valid=valid, version=version)
       break
     else:
-      if not first and version == "gfa2":
+      if not first and version == "gfa2" and \
+          (valid or re.match(r"^[0-9]+$", string)):
         # a single integer is a trace with one element
         return gfapy.Trace._from_string(string)
     raise gfapy.FormatError("Alignment field contains invalid data {}"
